@@ -439,3 +439,22 @@ Fixpoint ptrace (cf : cfg) (s : pstate) (ops : list pop) : list (list (list (lis
        | _ => let '(c, n, rc, rn) := dump (ps_g s') in [[enc_pres r]; c; n; enc_pairs rc; enc_pairs rn]
        end) :: ptrace cf s' ops'
   end.
+
+(** ** Statement vocabulary: "this op is a delivered message"
+    An op pushed through the graph counts as delivered when the session contains the same message
+    with the same signature verdict — delivered directly ([PSync]) or with a lookup ([PAnnAsync])
+    — or, for unsigned updates / node announcements / partial announcements / pruning, when a
+    snapshot was applied. *)
+Definition rgs_in (pops : list pop) : Prop := ∃ sn tm t, PRgs sn tm t ∈ pops.
+
+Definition delivered (pops : list pop) (o : op) : Prop :=
+  match o with
+  | OChanAnn _ sg a _ _ =>
+      (∃ v u t, PSync (OChanAnn v sg a u t) ∈ pops) ∨ (∃ v f p t, PAnnAsync v sg a f p t ∈ pops)
+  | OChanUpd _ sg m _ _ =>
+      (∃ v t ov, PSync (OChanUpd v sg m t ov) ∈ pops) ∨ (sg = None ∧ rgs_in pops)
+  | ONodeAnn _ sg m => (∃ v, PSync (ONodeAnn v sg m) ∈ pops) ∨ (sg = None ∧ rgs_in pops)
+  | OPartialAnn _ _ _ _ _ _ | OPrune _ => PSync o ∈ pops ∨ rgs_in pops
+  | _ => PSync o ∈ pops
+  end.
+
